@@ -183,6 +183,8 @@ class Polygon2D(Base2DIn2D):
         assert isinstance(hole, list), \
             'hole should be a list. Got {}'.format(type(hole))
 
+        # work on copies so that the caller's lists are not changed
+        boundary, hole = list(boundary), list(hole)
         # check that the direction of vertices for the hole is opposite the boundary
         bound_direction = Polygon2D._are_clockwise(boundary)
         if cls._are_clockwise(hole) is bound_direction:
@@ -225,6 +227,8 @@ class Polygon2D(Base2DIn2D):
             assert len(hole) >= 3, \
                 'hole should have at least 3 vertices. Got {}'.format(len(hole))
 
+        # work on copies so that the caller's lists are not changed
+        boundary, holes = list(boundary), [list(hole) for hole in holes]
         # check that the direction of vertices for the hole is opposite the boundary
         bound_direction = cls._are_clockwise(boundary)
         for hole in holes:
